@@ -121,6 +121,8 @@ pub fn plan(id: &str, tier: &str, seed: u64, round: u64) -> Plan {
                         c.min_variants = 40;
                         c.max_variants = 60;
                     }
+                    // print-side attributes must not disturb the parser
+                    c.allow_transparent = i % 4 == 1;
                     gen::gen_string(&mut rg, &c)
                 })
                 .collect();
@@ -129,7 +131,7 @@ pub fn plan(id: &str, tier: &str, seed: u64, round: u64) -> Plan {
                 specs,
                 params: params(&[("cases", if thorough { 6000 } else { 1500 }), ("max_flip_letters", if thorough { 12 } else { 9 })]),
                 strum_features: vec!["derive".into()],
-                profiles: vec!["dev"],
+                profiles: vec!["dev", "rel"],
                 policy: Policy::TaggedOnly,
                 rule: "programs: EnumString enums generated from pools (0..8 variants, all kinds, generics, every naming / disabled / default / default_with / ascii_case_insensitive combination, non-overlapping spellings by construction); inputs: every declared spelling, every identifier conversion, all 2^k case flips (k <= max_flip_letters), look-alike substitutions, then proptest-generated flips / one-edit neighbours / random strings. Oracle: independent reference model `parse`; from_str and try_from must agree with it and with each other on variant, payload and error. Non-trivial = enum has >= 2 enabled variants and the input is a spelling, flip, edit, derived name or look-alike; distinct by (program, input).".into(),
                 assumptions: vec![
@@ -174,7 +176,7 @@ pub fn plan(id: &str, tier: &str, seed: u64, round: u64) -> Plan {
                 specs,
                 params: params(&[("draws", if thorough { 16 } else { 6 })]),
                 strum_features: vec!["derive".into(), "phf".into()],
-                profiles: vec!["dev"],
+                profiles: vec!["dev", "rel"],
                 policy: Policy::TaggedOnly,
                 rule: "programs: prefix-less enums deriving EnumString + Display + AsRefStr + IntoStaticStr + EnumMessage, all 16 accepted serialize_all strings (each forced regularly) or none, every mix of serialize/to_string, all kinds, generics, const_into_str; every enabled non-default non-transparent variant is built with generated payloads, printed by every printer (Display, as_ref, From<E>, From<&E>, into_str) and parsed back: same variant, payload reset to defaults; every get_serializations() string parses back. Non-trivial = printed name differs from the identifier; distinct by (program, variant, printer) and (program, variant, serialization).".into(),
                 assumptions: vec!["parse-side payload expectation as in C01".into()],
@@ -204,7 +206,7 @@ pub fn plan(id: &str, tier: &str, seed: u64, round: u64) -> Plan {
                 specs,
                 params: params(&[]),
                 strum_features: vec!["derive".into()],
-                profiles: vec!["dev"],
+                profiles: vec!["dev", "rel"],
                 policy: Policy::TaggedOnly,
                 rule: "programs: twin enums from one spec (Display+AsRefStr+IntoStaticStr+VariantNames / deprecated ToString+AsStaticStr), {no attr, to_string, 1..3 serialize of distinct lengths in every order, both} x prefix (incl. empty, non-ASCII) x 16 styles x const_into_str on/off x all kinds x generics. Oracle: model canonical name; up to eight observations per variant (format!, ToString derive, as_ref, as_static, From<E>, From<&E>, into_str, const-evaluated into_str) plus VariantNames::VARIANTS at every declaration index. Non-trivial = longest serialize literal not last, or a prefix, or a style that changes the identifier; distinct by (program, variant, derive).".into(),
                 assumptions: vec!["longest serialize literal is unique (generator); statement silent on ties".into()],
@@ -239,7 +241,7 @@ pub fn plan(id: &str, tier: &str, seed: u64, round: u64) -> Plan {
                 specs,
                 params: params(&[]),
                 strum_features: vec!["derive".into()],
-                profiles: vec!["dev"],
+                profiles: vec!["dev", "rel"],
                 policy: Policy::TaggedOnly,
                 rule: "layer 2 (compiled): a dictionary of ~145 realistic identifiers (PascalCase, acronyms, digits, underscores, non-ASCII) x the 16 accepted serialize_all strings and none x the derives VariantNames, Display, AsRefStr, IntoStaticStr, EnumString, EnumMessage::get_serializations: all printers return the independent word-scanner model's conversion, from_str accepts it, get_serializations is exactly it, and variants with serialize/to_string are never re-cased (their cased identifier is rejected). Layer 1 (in-process, exhaustive identifiers) is reported under `inprocess`. Non-trivial = identifier with >= 2 words, an uppercase run or a digit; distinct by (identifier, style, derive).".into(),
                 assumptions: vec!["A1: caseless characters (digits) inherit the class of the preceding character; heck is what strum documents it uses".into(), "the property text counts 17 accepted style strings; strum's parser accepts 16 distinct strings, all are covered".into()],
@@ -274,7 +276,7 @@ pub fn plan(id: &str, tier: &str, seed: u64, round: u64) -> Plan {
                 specs,
                 params: params(&[("cases", if thorough { 5000 } else { 1000 }), ("max_flip_letters", if thorough { 10 } else { 6 }), ("draws", if thorough { 8 } else { 3 })]),
                 strum_features: vec!["derive".into()],
-                profiles: vec!["dev"],
+                profiles: vec!["dev", "rel"],
                 policy: Policy::TaggedOnly,
                 rule: "programs: enums with a default variant (tuple or single named field; inner String, Box<str>, Rc<str>, Arc<str>, a From<&str> wrapper) and/or transparent variants (inner String, &'static str, integers, a nested enum, a Spy type printing the formatter state), derive sets chosen so that the inner type satisfies them. Oracle: every input with no model match is captured verbatim (byte for byte) and from_str(s)?.to_string() == s; for transparent variants and default variants without to_string the whole 3740-cell format grid, as_ref and From<..> for &'static str equal what the inner field gives. Non-trivial = captured input within one edit / case flip / look-alike of a spelling or containing whitespace / non-ASCII; grid cell that pads or truncates.".into(),
                 assumptions: vec!["the inner field is located by a hand-written match emitted by the harness".into()],
@@ -303,7 +305,7 @@ pub fn plan(id: &str, tier: &str, seed: u64, round: u64) -> Plan {
                 specs,
                 params: params(&[("cases", if thorough { 5000 } else { 800 }), ("max_flip_letters", if thorough { 12 } else { 10 })]),
                 strum_features: vec!["derive".into(), "phf".into()],
-                profiles: vec!["dev"],
+                profiles: vec!["dev", "rel"],
                 policy: Policy::TaggedOnly,
                 rule: "programs: EnumString enums x enum-level ascii_case_insensitive on/off x variant flag absent / bare / = true / = false, spellings mixing ASCII and non-ASCII letters (ü/Ü, ß/ẞ, İ, Kelvin sign, long s, dotless i). Inputs: ALL 2^k case flips of each spelling (k <= max_flip_letters), every single look-alike substitution and every case flip of a non-ASCII letter, the same against case-sensitive variants, plus generated inputs. Oracle: reference parser folding only A-Z/a-z byte-wise. Non-trivial = non-identity flip, look-alike, edit or derived name on an enum with >= 2 enabled variants; distinct by (program, input).".into(),
                 assumptions: vec!["as C01".into()],
@@ -319,11 +321,17 @@ pub fn plan(id: &str, tier: &str, seed: u64, round: u64) -> Plan {
             cfg.allow_default_with = false;
             let mut specs: Vec<EnumSpec> = (0..n).map(|_| gen::gen_string(&mut rg, &cfg)).collect();
             name_specs(&mut specs, round);
+            // type names that collide with what a map-backed implementation might import
+            for (i, s) in specs.iter_mut().enumerate() {
+                if i % 16 == 6 {
+                    s.rust_name = ["Map", "PHF", "Entry", "OrderedMap"][(i / 16) % 4].to_string();
+                }
+            }
             Plan {
                 specs,
                 params: params(&[("cases", if thorough { 5000 } else { 800 }), ("max_flip_letters", if thorough { 10 } else { 8 })]),
                 strum_features: vec!["derive".into(), "phf".into()],
-                profiles: vec!["dev"],
+                profiles: vec!["dev", "rel"],
                 policy: Policy::TaggedOnly,
                 rule: "programs: field-less Clone enums of C01's domain (optionally one default variant), each emitted twice from one spec: plain and with #[strum(use_phf)] (strum feature phf on); spellings mixed-case, all-lower, all-upper, caseless (digits, punctuation, non-ASCII), case-insensitivity at enum and variant level. Oracle: differential (identical PObs from both twins for every input) + the reference model as third voice; the phf twin must compile whenever the plain twin does (errors confined to the twin's tagged range are violations). Inputs as C01/C12. Non-trivial as C01.".into(),
                 assumptions: vec!["as C01".into()],
@@ -344,7 +352,7 @@ pub fn plan(id: &str, tier: &str, seed: u64, round: u64) -> Plan {
                 specs,
                 params: params(&[("payload_draws", if thorough { 256 } else { 48 })]),
                 strum_features: vec!["derive".into()],
-                profiles: vec!["dev"],
+                profiles: vec!["dev", "rel"],
                 policy: Policy::TaggedOnly,
                 rule: "programs: Display enums x all kinds x naming attributes x prefix x styles; fixed names (incl. multi-byte): the 22 fill/align/flag literals x width 0..16 x precision none/0..8 = 3740 renderings per variant must equal the same renderings of the canonical &str. Placeholder literals generated from pieces (text, {{ }}, {name[:spec]}/{index[:spec]} over every subset and order of named fields, every order of all tuple indices, specs >4 <6 ^5 03 + ? #x .2 e ...): the expected string is produced by std's format! on the IDENTICAL literal with the same payload (emitted by the harness next to the enum), payloads incl. extremes. Non-trivial = grid cell that pads or truncates; literal with >= 2 placeholders, a spec or an escaped brace; distinct by (program, variant, cell / payload).".into(),
                 assumptions: vec!["outer format spec on an interpolated variant is not asserted (statement silent)".into()],
@@ -382,7 +390,7 @@ pub fn plan(id: &str, tier: &str, seed: u64, round: u64) -> Plan {
                 specs,
                 params: params(&[("cases", if thorough { 5000 } else { 1000 }), ("max_flip_letters", if thorough { 10 } else { 8 })]),
                 strum_features: vec!["derive".into(), "phf".into()],
-                profiles: vec!["dev"],
+                profiles: vec!["dev", "rel"],
                 policy: Policy::TaggedOnly,
                 rule: "programs: C01's domain without default variants; two thirds declare parse_err_ty/parse_err_fn (the emitted function counts its calls and stores its argument), one third does not. Oracle: model match => Ok and the call counter did not move; otherwise Err(e) with e carrying the caller's input byte for byte and the counter moved by exactly one, for from_str and try_from; FromStr::Err / TryFrom::Error are pinned by type ascription on a tagged line (a compile error there is a violation); without the attributes the error is ParseError::VariantNotFound. Non-trivial as C01.".into(),
                 assumptions: vec!["as C01".into()],
@@ -414,7 +422,7 @@ pub fn plan(id: &str, tier: &str, seed: u64, round: u64) -> Plan {
                 specs,
                 params: params(&[]),
                 strum_features: vec!["derive".into()],
-                profiles: vec!["dev"],
+                profiles: vec!["dev", "rel"],
                 policy: Policy::TaggedOnly,
                 rule: "programs: EnumIter + EnumCount enums with 0..12 variants of all kinds, type/const generics, payload types with non-zero Default; ALL 2^n disabled masks for n = 1..7 (round 0) plus random ones. Oracle: the model list (enabled variants in declaration order, Default payloads): forward, reverse, count/len/COUNT, and a both-ends walk. Non-trivial = a disabled variant before the last enabled one, or a data-carrying variant; distinct by program.".into(),
                 assumptions: vec!["glue (index match, payload rendering) emitted by the harness is trusted".into()],
@@ -457,7 +465,7 @@ pub fn plan(id: &str, tier: &str, seed: u64, round: u64) -> Plan {
                 specs,
                 params: params(&[]),
                 strum_features: vec!["derive".into()],
-                profiles: vec!["dev"],
+                profiles: vec!["dev", "rel"],
                 policy: Policy::TaggedOnly,
                 rule: "programs: enums deriving EnumCount + EnumIter + VariantNames (+ VariantArray when field-less) with 0..10 variants, naming attributes, serialize_all, prefix, explicit discriminants, generics and disabled variants (a third without any). Oracle: COUNT == #enabled == iter().count(); VariantNames::VARIANTS == model canonical names of ALL declared variants in order; VariantArray::VARIANTS[i] is declaration index i; without disabled variants position i agrees across all four. Non-trivial = >= 3 variants and (disabled variant or naming attribute or explicit discriminant); distinct by program.".into(),
                 assumptions: vec!["canonical-name model as in C03".into()],
@@ -476,7 +484,7 @@ pub fn plan(id: &str, tier: &str, seed: u64, round: u64) -> Plan {
                 specs,
                 params: params(&[("cases", if thorough { 20000 } else { 2000 })]),
                 strum_features: vec!["derive".into()],
-                profiles: vec!["dev"],
+                profiles: vec!["dev", "rel"],
                 policy: Policy::TaggedOnly,
                 rule: "programs: FromRepr enums for each repr in {none,u8,i8,u16,i16,u32,i32,u64,i64,usize,isize} with any mix of implicit and explicit discriminants (decimal, hex, shifts, sums, a typed BASE const, negative, gapped, descending, near MIN/MAX), disabled variants anywhere, data variants where rustc allows them. Inputs: EVERY value of 8/16-bit discriminant types; for wider types every discriminant +-1/+-2, 0, MIN, MAX, dense indices and proptest-generated values. Oracle: the discriminant rule over ALL declared variants (cross-checked against rustc through `v as R` / the documented pointer read on every variant), Some(V with Default payload) iff V enabled and disc(V) == d; const-evaluated from_repr for field-less enums. Non-trivial = program with a disabled variant before an enabled one, an explicit discriminant or a signed repr, and d within +-1 of a declared discriminant; distinct by (program, d).".into(),
                 assumptions: vec!["`v as R` and the primitive-repr pointer read give rustc's discriminant".into()],
@@ -500,7 +508,7 @@ pub fn plan(id: &str, tier: &str, seed: u64, round: u64) -> Plan {
                 specs,
                 params: params(&[("cases", if thorough { 2000 } else { 200 })]),
                 strum_features: vec!["derive".into()],
-                profiles: vec!["dev"],
+                profiles: vec!["dev", "rel"],
                 policy: Policy::TaggedOnly,
                 rule: rule.into(),
                 assumptions: vec![ass.into()],
@@ -514,6 +522,11 @@ pub fn plan(id: &str, tier: &str, seed: u64, round: u64) -> Plan {
                     specs.push(gen::gen_table(&mut rg, ne));
                 }
             }
+            // more keys than a byte can count
+            specs.push(gen::gen_table_large(&mut rg, 259));
+            if thorough {
+                specs.push(gen::gen_table_large(&mut rg, 300));
+            }
             name_specs(&mut specs, round);
             Plan {
                 specs,
@@ -521,7 +534,7 @@ pub fn plan(id: &str, tier: &str, seed: u64, round: u64) -> Plan {
                 strum_features: vec!["derive".into()],
                 profiles: vec!["dev", "rel"],
                 policy: Policy::TaggedOnly,
-                rule: "programs: field-less enums deriving EnumTable with 1..8 enabled variants, 0..3 disabled ones anywhere, identifiers with digits / acronyms / underscores / keyword look-alikes. Oracle: a Vec model indexed by position in the enabled list. Constructors: new(10, 11, ..)[k_i] == 10 + i, filled, from_closure with an injective function of the key (never called with a disabled key), transform with f(k, v) = 100 * index(k) + v (source untouched), all() over EVERY Some/None mask and all_ok() over EVERY Ok/Err mask with distinct error payloads (first Err in declaration order), indexing / index_mut with each disabled variant must panic. Histories: ALL write / snapshot / compare sequences up to the stated length over all keys x values {0,1,2} for n <= 4 (after every write the whole table is read back), then proptest histories of length < 48 for every n. Non-trivial = history writing >= 2 distinct keys with distinct values, every mask; distinct by (program, history / mask).".into(),
+                rule: "programs: field-less enums deriving EnumTable with 1..8 enabled variants (plus two enums of 259 and 300 keys), 0..3 disabled ones anywhere, optional #[repr] and shuffled explicit discriminants, identifiers with digits / acronyms / underscores / keyword look-alikes. Oracle: a Vec model indexed by position in the enabled list. Constructors: new(10, 11, ..)[k_i] == 10 + i, filled, from_closure with an injective function of the key (never called with a disabled key), transform with f(k, v) = 100 * index(k) + v (source untouched), all() over EVERY Some/None mask and all_ok() over EVERY Ok/Err mask with distinct error payloads (first Err in declaration order), indexing / index_mut with each disabled variant must panic. Histories: ALL write / snapshot / compare sequences up to the stated length over all keys x values {0,1,2} for n <= 4 (after every write the whole table is read back), then proptest histories of length < 48 for every n. Non-trivial = history writing >= 2 distinct keys with distinct values, every mask; distinct by (program, history / mask).".into(),
                 assumptions: vec!["table API is used through the names predicted by the model on tagged lines".into()],
             }
         }
@@ -533,7 +546,7 @@ pub fn plan(id: &str, tier: &str, seed: u64, round: u64) -> Plan {
                 specs,
                 params: params(&[("draws", if thorough { 32 } else { 8 })]),
                 strum_features: vec!["derive".into()],
-                profiles: vec!["dev"],
+                profiles: vec!["dev", "rel"],
                 policy: Policy::TaggedOnly,
                 rule: "programs: EnumDiscriminants enums x all kinds x payload types that are neither Default nor Clone x type / lifetime parameters with bounds and where-clauses x repr (none, u8, i8, u16, i32, u64, align(4)+u8) x explicit discriminants (decimal, hex, shifts, gapped, descending) x name(..) x vis(pub | pub(crate) | pub(super) | empty | absent) x derive(..) lists (EnumIter, EnumString, Display, VariantNames, FromRepr, Hash, PartialOrd, Ord) x pass-through strum attributes at enum and variant level x docs; E's own #[strum] attributes present as decoys. Oracle: (i) an exhaustive wildcard-free match over the generated type with exactly the declared names must compile (tagged line); (ii) for every variant value built twice from generated payloads, From<&E>, From<E> and IntoDiscriminant::discriminant (when its impl is expected) give the variant with the same declaration index; (iii) D::V as R equals the model discriminant and e's own discriminant (cast / pointer read, cross-checked with rustc), size_of::<D>() == size_of::<R>() under a repr; (iv) every requested derive is observable on D under the overridden name, reached from outside the defining module unless vis() is empty: iter order, from_str / Display / VARIANTS with the pass-through naming (and never E's own spellings), from_repr, std traits by static assertion. Non-trivial = data-carrying enum with an explicit discriminant, generics or a pass-through attribute; distinct by (program, variant, payload draw).".into(),
                 assumptions: vec!["names of the generated type and of the API are written on tagged lines; an error there is a violation".into()],
@@ -547,7 +560,7 @@ pub fn plan(id: &str, tier: &str, seed: u64, round: u64) -> Plan {
                 specs,
                 params: params(&[("draws", if thorough { 64 } else { 16 })]),
                 strum_features: vec!["derive".into()],
-                profiles: vec!["dev"],
+                profiles: vec!["dev", "rel"],
                 policy: Policy::TaggedOnly,
                 rule: "programs: enums deriving EnumIs + EnumTryAs with 1..8 variants of all kinds, tuple variants with 0..3 fields of distinct and (deliberately) equal types, several variants with identical signatures, type and lifetime parameters, payload types without Default/Clone, identifiers with digits / acronyms / underscores, disabled variants; method names predicted by the model (snake_case, digits split off) and called on tagged lines (a missing or differently named method is a violation). Oracle: the full n x n matrix e_i.is_j() == (i == j) (all false for a disabled variant's value), try_as_j by value == Some(payload in order) iff i == j, _ref returns references pointer-equal to the fields found by a hand-written match, a write through _mut is visible in e afterwards, in order, and leaves other variants untouched. Non-trivial = enum with two tuple variants of the same signature or a variant with two fields of one type; distinct by (program, i, j, payload draw).".into(),
                 assumptions: vec!["identifiers where an underscore directly precedes a digit are kept out (statement does not fix their method name)".into()],
